@@ -171,4 +171,642 @@ theorem maxId_spec {l : List Int} {m : Int} (h : maxId l = some m) : m ∈ l ∧
 theorem maxId_eq_none {l : List Int} : maxId l = none ↔ l = [] := by
   cases l <;> simp [maxId]
 
+/-! #### the phase-list invariant -/
+
+/-- the phase-list part of the invariant -/
+structure PLInv (d : PhaseList) : Prop where
+  sorted : (ids d).Pairwise (· < ·)
+  notIdx : ∀ e ∈ d, e.1 = -1 ↔ e.2.name = "not_indexed"
+  lower : ∀ e ∈ d, -1 ≤ e.1
+
+theorem plinv_addNotIndexed {d : PhaseList} (h : PLInv d) :
+    PLInv (Orix.PhaseList.addNotIndexed d) ∧ (∀ x ∈ ids d, x ∈ ids (addNotIndexed d)) ∧ (-1 : Int) ∈ ids (addNotIndexed d) := by
+  unfold Orix.PhaseList.addNotIndexed
+  have hnd := nodup_dictSet (nodup_of_sorted h.sorted) (-1) Phase.notIndexed
+  refine ⟨⟨sortById_sorted hnd, ?_, ?_⟩, ?_, ?_⟩
+  · intro e he
+    rcases mem_dictSet' (mem_sortById.1 he) with rfl | ⟨hd, hne⟩
+    · simp [Phase.notIndexed]
+    · have := h.notIdx e hd
+      constructor
+      · intro h1; exact absurd h1 hne
+      · intro h2; exact absurd (this.2 h2) hne
+  · intro e he
+    rcases mem_dictSet' (mem_sortById.1 he) with rfl | ⟨hd, _⟩
+    · simp
+    · exact h.lower e hd
+  · intro x hx
+    exact (ids_sortById_perm _).mem_iff.2 (ids_subset_dictSet d _ _ x hx)
+  · exact (ids_sortById_perm _).mem_iff.2 (self_mem_ids_dictSet d _ _)
+
+theorem plinv_sortById_eq {d : PhaseList} (h : PLInv d) : sortById d = d :=
+  sortById_of_sorted h.sorted
+
+theorem plinv_dictSet_new {d : PhaseList} {nid : Int} {p : Phase} (h : PLInv d) (hp : p.name ≠ "not_indexed")
+    (hgt : ∀ x ∈ ids d, x < nid) (hnn : 0 ≤ nid) :
+    PLInv (dictSet d nid p) ∧ (∀ x ∈ ids d, x ∈ ids (dictSet d nid p)) := by
+  have hnotin : nid ∉ ids d := fun hin => by have := hgt nid hin; omega
+  refine ⟨⟨?_, ?_, ?_⟩, ids_subset_dictSet d _ _⟩
+  · rw [ids_dictSet]
+    simp only [hnotin, if_false]
+    rw [List.pairwise_append]
+    refine ⟨h.sorted, by simp, ?_⟩
+    intro a ha b hb
+    simp only [List.mem_singleton] at hb
+    subst hb
+    exact hgt a ha
+  · intro e he
+    rcases mem_dictSet' he with rfl | ⟨hd, _⟩
+    · simp only
+      constructor
+      · intro h1; omega
+      · intro h2; exact absurd h2 hp
+    · exact h.notIdx e hd
+  · intro e he
+    rcases mem_dictSet' he with rfl | ⟨hd, _⟩
+    · simp only; omega
+    · exact h.lower e hd
+
+theorem plinv_add1 {d d' : PhaseList} {p : Phase} (h : PLInv d) (hp : p.name ≠ "not_indexed")
+    (ha : add1 d p = some d') : PLInv d' ∧ (∀ x ∈ ids d, x ∈ ids d') := by
+  unfold Orix.PhaseList.add1 at ha
+  by_cases hc : (names d).contains p.name = true
+  · rw [if_pos hc] at ha; cases ha
+  · rw [if_neg hc] at ha
+    cases hm : maxId (ids d) with
+    | none =>
+      simp only [hm, Option.some.injEq] at ha
+      subst ha
+      exact plinv_dictSet_new h hp (by rw [maxId_eq_none.1 hm]; simp) (le_refl _)
+    | some m =>
+      simp only [hm, Option.some.injEq] at ha
+      subst ha
+      obtain ⟨hm1, hm2⟩ := maxId_spec hm
+      obtain ⟨e, he, hei⟩ := List.mem_map.1 hm1
+      have hlow := h.lower e he
+      refine plinv_dictSet_new h hp (fun x hx => ?_) ?_
+      · have := hm2 x hx; omega
+      · omega
+
+theorem plinv_add {d : PhaseList} (h : PLInv d) (ps : List Phase) (hps : ∀ p ∈ ps, p.name ≠ "not_indexed") :
+    PLInv (add d ps).1 ∧ (∀ x ∈ ids d, x ∈ ids (add d ps).1) := by
+  induction ps generalizing d with
+  | nil => exact ⟨h, fun x hx => hx⟩
+  | cons p ps ih =>
+    unfold Orix.PhaseList.add
+    cases ha : add1 d p with
+    | none => exact ⟨h, fun x hx => hx⟩
+    | some d' =>
+      obtain ⟨h', hsub⟩ := plinv_add1 h (hps p (by simp)) ha
+      obtain ⟨h'', hsub'⟩ := ih h' (fun q hq => hps q (by simp [hq]))
+      exact ⟨h'', fun x hx => hsub' x (hsub x hx)⟩
+
+theorem plinv_filter {d : PhaseList} (h : PLInv d) (f : Int × Phase → Bool) : PLInv (d.filter f) := by
+  refine ⟨?_, fun e he => h.notIdx e (List.mem_filter.1 he).1, fun e he => h.lower e (List.mem_filter.1 he).1⟩
+  exact h.sorted.sublist ((List.filter_sublist).map _)
+
+theorem mem_ids_pop {d : PhaseList} {i x : Int} (hx : x ∈ ids d) (hne : x ≠ i) :
+    x ∈ ids (d.filter fun e => !(e.1 == i)) := by
+  obtain ⟨e, he, rfl⟩ := List.mem_map.1 hx
+  exact List.mem_map.2 ⟨e, List.mem_filter.2 ⟨he, by simpa using hne⟩, rfl⟩
+
 end Orix.PhaseList
+
+namespace Orix.XMap
+open Orix
+
+/-- the invariant of property C12 (stated over *all* original points, hence valid for every selection) -/
+structure Inv (s : Sys) : Prop where
+  pl : PhaseList.PLInv s.phases
+  covers : ∀ p, p < s.n → s.phaseId p ∈ PhaseList.ids s.phases
+
+def Value.values : Value → List Int
+  | .scalar v => [v]
+  | .array vs => vs
+
+theorem lookup_mem_zip {I : List Nat} {vs : List Int} {p : Nat} {v : Int}
+    (h : (I.zip vs).lookup p = some v) : v ∈ vs := by
+  induction I generalizing vs with
+  | nil => simp at h
+  | cons a I ih =>
+    cases vs with
+    | nil => simp at h
+    | cons w vs =>
+      simp only [List.zip_cons_cons, List.lookup_cons] at h
+      by_cases hpa : (p == a) = true
+      · simp only [hpa] at h
+        simp only [Option.some.injEq] at h
+        subst h; simp
+      · have : (p == a) = false := by simpa using hpa
+        simp only [this] at h
+        exact List.mem_cons_of_mem _ (ih h)
+
+theorem lookup_zip_none {I : List Nat} {vs : List Int} {p : Nat} (hp : p ∉ I) :
+    (I.zip vs).lookup p = none := by
+  rw [List.lookup_eq_none_iff]
+  intro e he
+  have hmem := (List.of_mem_zip (a := e.1) (b := e.2) he).1
+  have : p ≠ e.1 := fun heq => hp (heq ▸ hmem)
+  simpa using this
+
+theorem assign_values {I : List Nat} {old : Nat → Int} {val : Value} {f : Nat → Int}
+    (h : assign I old val = .ok f) (p : Nat) : f p = old p ∨ f p ∈ val.values := by
+  cases val with
+  | scalar v =>
+    simp only [assign, Except.ok.injEq] at h
+    subst h
+    by_cases hc : p ∈ I <;> simp [hc, Value.values]
+  | array vs =>
+    simp only [assign] at h
+    by_cases hl : vs.length = I.length
+    · simp only [hl, if_true, Except.ok.injEq] at h
+      subst h
+      cases hlk : (I.zip vs).lookup p with
+      | none => left; simp [hlk]
+      | some v => right; simp only [hlk, Value.values]; exact lookup_mem_zip hlk
+    · simp only [hl, if_false] at h
+      match vs, h with
+      | [v], h =>
+        simp only [Except.ok.injEq] at h
+        subst h
+        by_cases hc : p ∈ I <;> simp [hc, Value.values]
+
+/-- **frame**: an assignment through a selection leaves every point outside the selection untouched -/
+theorem assign_frame {I : List Nat} {old : Nat → Int} {val : Value} {f : Nat → Int}
+    (h : assign I old val = .ok f) {p : Nat} (hp : p ∉ I) : f p = old p := by
+  cases val with
+  | scalar v =>
+    simp only [assign, Except.ok.injEq] at h
+    subst h
+    simp [hp]
+  | array vs =>
+    simp only [assign] at h
+    by_cases hl : vs.length = I.length
+    · simp only [hl, if_true, Except.ok.injEq] at h
+      subst h
+      simp [lookup_zip_none hp]
+    · simp only [hl, if_false] at h
+      match vs, h with
+      | [v], h =>
+        simp only [Except.ok.injEq] at h
+        subst h
+        simp [hp]
+
+theorem hasNeg1_of_mem {val : Value} (h : (-1 : Int) ∈ val.values) : val.hasNeg1 = true := by
+  cases val with
+  | scalar v => simp only [Value.values, List.mem_singleton] at h; simp [Value.hasNeg1, ← h]
+  | array vs => simpa [Value.hasNeg1, Value.values] using h
+
+theorem admissible_values {s : Sys} {v : Nat} {val : Value} (h : admissible s (.setPhaseId v val) = true) :
+    ∀ x ∈ val.values, x = -1 ∨ x ∈ PhaseList.ids s.phases := by
+  intro x hx
+  cases val with
+  | scalar w =>
+    simp only [Value.values, List.mem_singleton] at hx
+    subst hx
+    simpa [admissible] using h
+  | array vs =>
+    simp only [Value.values] at hx
+    have := h
+    simp only [admissible, List.all_eq_true] at this
+    simpa using this x hx
+
+
+theorem step_select_fields (s : Sys) (v : Nat) (k : Key) :
+    (step s (.select v k)).1.phases = s.phases ∧ (step s (.select v k)).1.phaseId = s.phaseId ∧
+    (step s (.select v k)).1.grid = s.grid ∧ (step s (.select v k)).1.props = s.props := by
+  unfold step
+  cases hv : s.views[v]? with
+  | none => simp [hv]
+  | some m =>
+    cases hg : getItem s.base m k with
+    | ok m' => simp [hv, hg]
+    | error e => simp [hv, hg]
+
+theorem step_setProp_fields (s : Sys) (v : Nat) (nm : String) (val : Value) :
+    (step s (.setProp v nm val)).1.phases = s.phases ∧ (step s (.setProp v nm val)).1.phaseId = s.phaseId ∧
+    (step s (.setProp v nm val)).1.grid = s.grid ∧ (step s (.setProp v nm val)).1.views = s.views := by
+  unfold step
+  cases hv : s.views[v]? with
+  | none => simp [hv]
+  | some m =>
+    simp only [hv]
+    split <;> simp
+
+theorem inv_of_fields {s s' : Sys} (h : Inv s) (h1 : s'.phases = s.phases) (h2 : s'.phaseId = s.phaseId)
+    (h3 : s'.grid = s.grid) : Inv s' := by
+  refine ⟨by rw [h1]; exact h.pl, ?_⟩
+  intro p hp
+  rw [h1, h2]
+  exact h.covers p (by simpa [Sys.n, h3] using hp)
+
+/-- **every admissible operation preserves the invariant** -/
+theorem inv_step {s : Sys} (h : Inv s) (o : Op) (ha : admissible s o = true) : Inv (step s o).1 := by
+  cases o with
+  | select v k =>
+    obtain ⟨h1, h2, h3, _⟩ := step_select_fields s v k
+    exact inv_of_fields h h1 h2 h3
+  | setProp v nm val =>
+    obtain ⟨h1, h2, h3, _⟩ := step_setProp_fields s v nm val
+    exact inv_of_fields h h1 h2 h3
+  | setPhaseId v val =>
+    cases hv : s.views[v]? with
+    | none => simpa [step, hv] using h
+    | some m =>
+      cases has : assign (ids s.n m) s.phaseId val with
+      | error e => simpa [step, hv, has] using h
+      | ok pid' =>
+        simp only [step, hv, has]
+        have hvals := admissible_values ha
+        by_cases hc : (val.hasNeg1 && !((PhaseList.names s.phases).contains "not_indexed")) = true
+        · simp only [hc, if_true]
+          obtain ⟨hpl, hsub, hneg⟩ := PhaseList.plinv_addNotIndexed h.pl
+          refine ⟨hpl, ?_⟩
+          intro p hp
+          show pid' p ∈ PhaseList.ids (PhaseList.addNotIndexed s.phases)
+          rcases assign_values has p with heq | hmem
+          · rw [heq]; exact hsub _ (h.covers p hp)
+          · rcases hvals _ hmem with h1 | h1
+            · rw [h1]; exact hneg
+            · exact hsub _ h1
+        · simp only [hc, Bool.false_eq_true, if_false]
+          refine ⟨h.pl, ?_⟩
+          intro p hp
+          show pid' p ∈ PhaseList.ids s.phases
+          rcases assign_values has p with heq | hmem
+          · rw [heq]; exact h.covers p hp
+          · rcases hvals _ hmem with h1 | h1
+            · -- the value -1 was assigned and no phase was added: `not_indexed` is already a name, so -1 is an id
+              have hneg : val.hasNeg1 = true := hasNeg1_of_mem (h1 ▸ hmem)
+              have hcont : (PhaseList.names s.phases).contains "not_indexed" = true := by
+                simpa [hneg] using hc
+              have : "not_indexed" ∈ PhaseList.names s.phases := by simpa using hcont
+              obtain ⟨e, he, hen⟩ := List.mem_map.1 this
+              have hid : e.1 = -1 := (h.pl.notIdx e he).2 hen
+              rw [h1, ← hid]
+              exact List.mem_map_of_mem he
+            · exact h1
+  | plAdd ps =>
+    simp only [step]
+    have hps : ∀ p ∈ ps, p.name ≠ "not_indexed" := by
+      intro p hp
+      have := ha
+      simp only [admissible, List.all_eq_true] at this
+      simpa using this p hp
+    obtain ⟨hpl, hsub⟩ := PhaseList.plinv_add h.pl ps hps
+    exact ⟨hpl, fun p hp => hsub _ (h.covers p hp)⟩
+  | plDel k =>
+    cases k with
+    | id i =>
+      simp only [step, PhaseList.delItem, PhaseList.dictPop]
+      by_cases hany : s.phases.any (fun e => e.1 == i) = true
+      · simp only [hany, if_true]
+        refine ⟨PhaseList.plinv_filter h.pl _, ?_⟩
+        intro p hp
+        have hne : s.phaseId p ≠ i := by
+          have := ha
+          simp only [admissible, List.all_eq_true] at this
+          simpa using this p (List.mem_range.2 hp)
+        exact PhaseList.mem_ids_pop (h.covers p hp) hne
+      · simp only [hany, Bool.false_eq_true, if_false]
+        exact h
+    | name nm =>
+      cases hf : s.phases.find? (fun e => e.2.name == nm) with
+      | none => simpa [step, PhaseList.delItem, hf] using h
+      | some e =>
+        simp only [step, PhaseList.delItem, hf, PhaseList.dictPop]
+        by_cases hany : s.phases.any (fun f => f.1 == e.1) = true
+        · simp only [hany, if_true]
+          refine ⟨PhaseList.plinv_filter h.pl _, ?_⟩
+          intro p hp
+          have hne : s.phaseId p ≠ e.1 := by
+            have := ha
+            simp only [admissible, hf, List.all_eq_true] at this
+            simpa using this p (List.mem_range.2 hp)
+          exact PhaseList.mem_ids_pop (h.covers p hp) hne
+        · simp only [hany, Bool.false_eq_true, if_false]
+          exact h
+  | plAddNotIndexed =>
+    simp only [step]
+    obtain ⟨hpl, hsub, _⟩ := PhaseList.plinv_addNotIndexed h.pl
+    exact ⟨hpl, fun p hp => hsub _ (h.covers p hp)⟩
+  | plSort =>
+    simp only [step]
+    refine ⟨?_, ?_⟩
+    · show PhaseList.PLInv (PhaseList.sortById s.phases)
+      rw [PhaseList.plinv_sortById_eq h.pl]; exact h.pl
+    · intro p hp
+      show s.phaseId p ∈ PhaseList.ids (PhaseList.sortById s.phases)
+      rw [PhaseList.plinv_sortById_eq h.pl]; exact h.covers p hp
+
+/-- lifted to all finite histories of admissible operations -/
+theorem inv_runOps {s : Sys} (h : Inv s) (os : List Op) (ha : admissibleAll s os = true) : Inv (runOps s os) := by
+  induction os generalizing s with
+  | nil => exact h
+  | cons o os ih =>
+    simp only [admissibleAll, Bool.and_eq_true] at ha
+    exact ih (inv_step h o ha.1) ha.2
+
+end Orix.XMap
+
+namespace Orix.XMap
+open Orix
+
+/-! ### `np.unique` -/
+
+theorem mem_insertUniq {x y : Int} {l : List Int} : y ∈ insertUniq x l ↔ y = x ∨ y ∈ l := by
+  induction l with
+  | nil => simp [insertUniq]
+  | cons a l ih =>
+    unfold insertUniq
+    by_cases h1 : x < a
+    · simp [h1]
+    · by_cases h2 : x = a
+      · subst h2; simp
+      · simp only [h1, h2, if_false, List.mem_cons, ih]
+        tauto
+
+theorem insertUniq_sorted {x : Int} {l : List Int} (h : l.Pairwise (· < ·)) :
+    (insertUniq x l).Pairwise (· < ·) := by
+  induction l with
+  | nil => simp [insertUniq]
+  | cons a l ih =>
+    unfold insertUniq
+    rw [List.pairwise_cons] at h
+    by_cases h1 : x < a
+    · simp only [h1, if_true]
+      refine List.pairwise_cons.2 ⟨?_, List.pairwise_cons.2 h⟩
+      intro b hb
+      rcases List.mem_cons.1 hb with rfl | hb
+      · exact h1
+      · exact lt_trans h1 (h.1 b hb)
+    · by_cases h2 : x = a
+      · subst h2
+        simp only [lt_self_iff_false, if_false, if_true]
+        exact List.pairwise_cons.2 h
+      · simp only [h1, h2, if_false]
+        refine List.pairwise_cons.2 ⟨?_, ih h.2⟩
+        intro b hb
+        rcases mem_insertUniq.1 hb with rfl | hb
+        · omega
+        · exact h.1 b hb
+
+theorem mem_uniqueSorted {y : Int} {l : List Int} : y ∈ uniqueSorted l ↔ y ∈ l := by
+  induction l with
+  | nil => simp [uniqueSorted]
+  | cons a l ih =>
+    simp only [uniqueSorted, List.foldr_cons, List.mem_cons] at ih ⊢
+    rw [mem_insertUniq, ih]
+
+theorem uniqueSorted_sorted (l : List Int) : (uniqueSorted l).Pairwise (· < ·) := by
+  induction l with
+  | nil => simp [uniqueSorted]
+  | cons a l ih =>
+    simp only [uniqueSorted, List.foldr_cons] at ih ⊢
+    exact insertUniq_sorted ih
+
+/-- the ids the constructor links phases to: the sorted unique ids of the data without `-1` -/
+theorem uniq_spec (u : List Int) (hs : u.Pairwise (· < ·)) (hlow : ∀ x ∈ u, -1 ≤ x) :
+    let notIdx := u.head? == some (-1)
+    let uniq := if notIdx then u.drop 1 else u
+    (notIdx = true ↔ (-1 : Int) ∈ u) ∧ uniq.Pairwise (· < ·) ∧ (∀ x, x ∈ uniq ↔ x ∈ u ∧ x ≠ -1) := by
+  cases u with
+  | nil => simp
+  | cons a u =>
+    rw [List.pairwise_cons] at hs
+    simp only [List.head?_cons, List.drop_one, List.tail_cons]
+    by_cases ha : a = -1
+    · subst ha
+      simp only [beq_self_eq_true, if_true, List.mem_cons, true_or, iff_true, true_and]
+      refine ⟨hs.2, ?_⟩
+      intro x
+      constructor
+      · intro hx; exact ⟨Or.inr hx, ne_of_gt (hs.1 x hx)⟩
+      · rintro ⟨h1 | h1, h2⟩
+        · exact absurd h1 h2
+        · exact h1
+    · have hbeq : (some a == some (-1 : Int)) = false := by simpa using ha
+      simp only [hbeq, Bool.false_eq_true, if_false, false_iff, List.mem_cons]
+      have hnot : (-1 : Int) ∉ u := by
+        intro hin
+        have h1 := hs.1 _ hin
+        have h2 := hlow a (by simp)
+        omega
+      refine ⟨?_, List.pairwise_cons.2 hs, ?_⟩
+      · rintro (h | h)
+        · exact ha h.symm
+        · exact hnot h
+      · intro x
+        constructor
+        · intro hx
+          refine ⟨hx, ?_⟩
+          rintro rfl
+          rcases hx with h | h
+          · exact ha h.symm
+          · exact hnot h
+        · exact fun h => h.1
+
+end Orix.XMap
+
+namespace Orix.PhaseList
+open Orix
+
+/-- with pairwise distinct keys `dict(zip(keys, values))` is the list of pairs itself -/
+theorem foldl_dictSet_nodup (ps : List (Int × Phase)) :
+    ∀ d : PhaseList, (ids d ++ ps.map (·.1)).Nodup → ps.foldl (fun d e => dictSet d e.1 e.2) d = d ++ ps := by
+  induction ps with
+  | nil => intro d _; simp
+  | cons e ps ih =>
+    intro d h
+    simp only [List.foldl_cons]
+    have hnot : e.1 ∉ ids d := by
+      intro hin
+      rw [List.nodup_append] at h
+      exact h.2.2 e.1 hin e.1 (by simp) rfl
+    have hset : dictSet d e.1 e.2 = d ++ [e] := by
+      unfold dictSet
+      have : d.any (fun f => f.1 == e.1) = false := by
+        rw [Bool.eq_false_iff]; exact fun hh => hnot (any_id_iff.1 hh)
+      simp [this]
+    rw [hset, ih (d ++ [e])]
+    · simp
+    · have : ids (d ++ [e]) ++ ps.map (·.1) = ids d ++ (e :: ps).map (·.1) := by simp [ids]
+      rw [this]; exact h
+
+theorem ofPairs_of_nodup {ps : List (Int × Phase)} (h : (ps.map (·.1)).Nodup) : ofPairs ps = ps := by
+  unfold ofPairs
+  rw [foldl_dictSet_nodup ps [] (by simpa [ids] using h)]
+  simp
+
+end Orix.PhaseList
+
+namespace Orix.XMap
+open Orix
+
+theorem length_filter_pop {d : PhaseList} {i : Int} (hnd : (PhaseList.ids d).Nodup) (hi : i ∈ PhaseList.ids d) :
+    (d.filter fun e => !(e.1 == i)).length + 1 = d.length := by
+  induction d with
+  | nil => simp [PhaseList.ids] at hi
+  | cons e d ih =>
+    simp only [PhaseList.ids, List.map_cons, List.nodup_cons, List.mem_cons] at hnd hi
+    by_cases he : e.1 = i
+    · subst he
+      have : (d.filter fun f => !(f.1 == e.1)) = d := by
+        rw [List.filter_eq_self]
+        intro f hf
+        have : f.1 ≠ e.1 := fun h => hnd.1 (by rw [← h]; exact List.mem_map_of_mem hf)
+        simpa using this
+      simp [List.filter_cons, this]
+    · have hi' : i ∈ PhaseList.ids d := by
+        rcases hi with h | h
+        · exact absurd h.symm he
+        · exact h
+      have := ih hnd.2 hi'
+      simp [List.filter_cons, he]
+      omega
+
+theorem dropSurplus_length (uniq : List Int) :
+    ∀ (l : List Int) (k : Nat) (d : PhaseList), l.Nodup → (∀ i ∈ l, i ∈ PhaseList.ids d) →
+      (PhaseList.ids d).Nodup → k ≤ (l.filter fun i => !uniq.contains i).length →
+      (dropSurplus uniq l k d).length + k = d.length := by
+  intro l
+  induction l with
+  | nil => intro k d _ _ _ hk; simp at hk; subst hk; simp [dropSurplus]
+  | cons i rest ih =>
+    intro k d hl hsub hnd hk
+    cases k with
+    | zero => simp [dropSurplus]
+    | succ k =>
+      rw [List.nodup_cons] at hl
+      unfold dropSurplus
+      by_cases hc : uniq.contains i = true
+      · simp only [hc, if_true]
+        apply ih (k + 1) d hl.2 (fun j hj => hsub j (by simp [hj])) hnd
+        have hm : i ∈ uniq := by simpa using hc
+        simpa [List.filter_cons, hm] using hk
+      · have hc' : uniq.contains i = false := by simpa using hc
+        simp only [hc', Bool.false_eq_true, if_false]
+        have hi : i ∈ PhaseList.ids d := hsub i (by simp)
+        have hlen := length_filter_pop hnd hi
+        have hnd' : (PhaseList.ids (d.filter fun e => !(e.1 == i))).Nodup :=
+          hnd.sublist ((List.filter_sublist).map _)
+        have := ih k (d.filter fun e => !(e.1 == i)) hl.2
+          (fun j hj => PhaseList.mem_ids_pop (hsub j (by simp [hj])) (fun h => hl.1 (h ▸ hj))) hnd'
+          (by have hm : i ∉ uniq := by simpa using hc'
+              simpa [List.filter_cons, hm] using hk)
+        omega
+
+theorem dropSurplus_sub (uniq : List Int) : ∀ (l : List Int) (k : Nat) (d : PhaseList),
+    ∀ e ∈ dropSurplus uniq l k d, e ∈ d := by
+  intro l
+  induction l with
+  | nil => intro k d e he; simpa [dropSurplus] using he
+  | cons i rest ih =>
+    intro k d e he
+    cases k with
+    | zero => simpa [dropSurplus] using he
+    | succ k =>
+      unfold dropSurplus at he
+      by_cases hc : uniq.contains i = true
+      · simp only [hc, if_true] at he; exact ih _ _ e he
+      · have hc' : uniq.contains i = false := by simpa using hc
+        simp only [hc', Bool.false_eq_true, if_false] at he
+        exact (List.mem_filter.1 (ih _ _ e he)).1
+
+/-- pigeonhole: at most `|uniq|` of the pairwise distinct ids of the list can be ids of the data -/
+theorem surplus_le (uniq pids : List Int) (hnd : pids.Nodup) :
+    pids.length - uniq.length ≤ (pids.filter fun i => !uniq.contains i).length := by
+  have h1 : (pids.filter fun i => uniq.contains i).length ≤ uniq.length := by
+    have hsub : (pids.filter fun i => uniq.contains i) ⊆ uniq := by
+      intro x hx
+      have := (List.mem_filter.1 hx).2
+      simpa using this
+    exact (List.subperm_of_subset (hnd.sublist List.filter_sublist) hsub).length_le
+  have h2 : (pids.filter fun i => uniq.contains i).length + (pids.filter fun i => !uniq.contains i).length
+      = pids.length := by
+    have := List.length_eq_length_filter_add (l := pids) (fun i => uniq.contains i)
+    simpa using this.symm
+  omega
+
+
+theorem dictGet_mem {d : PhaseList} {i : Int} {p : Phase} (h : PhaseList.dictGet d i = some p) :
+    ∃ e ∈ d, e.2 = p := by
+  unfold PhaseList.dictGet at h
+  cases hf : d.find? (fun e => e.1 == i) with
+  | none => simp [hf] at h
+  | some e =>
+    simp only [hf, Option.some.injEq] at h
+    exact ⟨e, List.mem_of_find?_eq_some hf, h⟩
+
+/-- what `CrystalMap.__init__` makes of the caller's phase list: exactly one phase per id of the data, each
+either one of the caller's phases or a default phase -/
+theorem reconcile_spec (uniq : List Int) (pl : PhaseList) (hu : uniq.Pairwise (· < ·))
+    (hpl : (PhaseList.ids pl).Nodup) :
+    PhaseList.ids (reconcile uniq pl) = uniq ∧
+      ∀ e ∈ reconcile uniq pl, e.2 = Phase.dflt ∨ ∃ f ∈ pl, f.2 = e.2 := by
+  have hund : uniq.Nodup := PhaseList.nodup_of_sorted hu
+  -- the intermediate list `pl1` has at least as many phases as there are ids, all from `pl` or default
+  have key : ∀ pl1 : PhaseList, uniq.length ≤ pl1.length →
+      (∀ e ∈ pl1, e.2 = Phase.dflt ∨ ∃ f ∈ pl, f.2 = e.2) →
+      PhaseList.ids (PhaseList.ofPairs (uniq.zip (pl1.map (·.2)))) = uniq ∧
+        ∀ e ∈ PhaseList.ofPairs (uniq.zip (pl1.map (·.2))), e.2 = Phase.dflt ∨ ∃ f ∈ pl, f.2 = e.2 := by
+    intro pl1 hlen hval
+    have hfst : (uniq.zip (pl1.map (·.2))).map (·.1) = uniq :=
+      List.map_fst_zip (by simpa using hlen)
+    rw [PhaseList.ofPairs_of_nodup (by rw [hfst]; exact hund)]
+    refine ⟨hfst, ?_⟩
+    intro e he
+    have := (List.of_mem_zip (a := e.1) (b := e.2) he).2
+    obtain ⟨f, hf, hfe⟩ := List.mem_map.1 this
+    rcases hval f hf with h | ⟨g, hg, hge⟩
+    · left; rw [← hfe]; exact h
+    · right; exact ⟨g, hg, by rw [hge, hfe]⟩
+  unfold reconcile
+  simp only
+  by_cases hgt : (PhaseList.ids pl).length > uniq.length
+  · simp only [hgt, if_true]
+    apply key
+    · have hk := surplus_le uniq (PhaseList.ids pl) hpl
+      have := dropSurplus_length uniq (PhaseList.ids pl).reverse ((PhaseList.ids pl).length - uniq.length) pl
+        (List.nodup_reverse.2 hpl) (fun i hi => List.mem_reverse.1 hi) hpl
+        (by rw [List.filter_reverse, List.length_reverse]; exact hk)
+      have hl : (PhaseList.ids pl).length = pl.length := by simp [PhaseList.ids]
+      omega
+    · intro e he
+      exact Or.inr ⟨e, dropSurplus_sub _ _ _ _ e he, rfl⟩
+  · simp only [hgt, if_false]
+    by_cases hlt : (PhaseList.ids pl).length < uniq.length
+    · simp only [hlt, if_true]
+      set g : Int → Int × Phase := fillFor pl with hg
+      have hgfst : ∀ i, (g i).1 = i := by
+        intro i; simp only [hg, fillFor]; split <;> rfl
+      have hkeys : (uniq.map g).map (·.1) = uniq := by
+        rw [List.map_map]
+        conv_rhs => rw [← List.map_id uniq]
+        exact List.map_congr_left (fun i _ => hgfst i)
+      have hof : PhaseList.ofDict (uniq.map g) = uniq.map g := by
+        unfold PhaseList.ofDict
+        rw [PhaseList.ofPairs_of_nodup (by rw [hkeys]; exact hund)]
+        exact PhaseList.sortById_of_sorted (by show ((uniq.map g).map (·.1)).Pairwise _; rw [hkeys]; exact hu)
+      rw [hof]
+      apply key
+      · simp
+      · intro e he
+        obtain ⟨i, _, rfl⟩ := List.mem_map.1 he
+        simp only [hg, fillFor]
+        split
+        · rename_i p hp
+          have hp' : PhaseList.dictGet pl i = some p := by
+            by_cases hc : (PhaseList.ids pl).contains i = true
+            · simpa only [hc, if_true] using hp
+            · rw [if_neg hc] at hp; cases hp
+          obtain ⟨f, hf, hfp⟩ := dictGet_mem hp'
+          exact Or.inr ⟨f, hf, hfp⟩
+        · exact Or.inl rfl
+    · simp only [hlt, if_false]
+      apply key
+      · have hl : (PhaseList.ids pl).length = pl.length := by simp [PhaseList.ids]
+        omega
+      · intro e he; exact Or.inr ⟨e, he, rfl⟩
+
+end Orix.XMap
